@@ -27,6 +27,7 @@ fn collect_deps(
 	resolver: &FileImportResolver,
 	source: &SourcePath,
 	deps: &mut BTreeSet<String>,
+	scanned: &mut BTreeSet<String>,
 ) -> Result<(), String> {
 	let contents = resolver
 		.load_file_contents(source)
@@ -49,8 +50,10 @@ fn collect_deps(
 			.resolve_from(source, &&*path)
 			.map_err(|e| format!("{e}"))?;
 		let path_str = format!("{resolved}");
-		if deps.insert(path_str) && expression {
-			collect_deps(resolver, &resolved, deps)?;
+		deps.insert(path_str.clone());
+		// A file may be listed first through `importstr`/`importbin` and only later be imported as code
+		if expression && scanned.insert(path_str) {
+			collect_deps(resolver, &resolved, deps, scanned)?;
 		}
 	}
 
@@ -69,7 +72,8 @@ fn main() {
 		});
 
 	let mut deps = BTreeSet::new();
-	if let Err(e) = collect_deps(&resolver, &source, &mut deps) {
+	let mut scanned = BTreeSet::new();
+	if let Err(e) = collect_deps(&resolver, &source, &mut deps, &mut scanned) {
 		eprintln!("{e}");
 		exit(1);
 	}
